@@ -102,7 +102,7 @@ func c14Gen(r *rand.Rand, nSteps int) c14Script {
 			held--
 		}
 		if r.Intn(7) == 0 {
-			step.Pre = append(step.Pre, c14Event{Kind: "excl", Arg: c14ExclusiveKinds[r.Intn(len(c14ExclusiveKinds))], Settle: r.Intn(10) < 6})
+			step.Pre = append(step.Pre, c14Event{Kind: "excl", Arg: c14ExclusiveKinds[r.Intn(len(c14ExclusiveKinds))], Settle: r.Intn(10) < 4})
 			held++
 		}
 		if r.Intn(8) == 0 {
@@ -163,7 +163,7 @@ func c14Gen(r *rand.Rand, nSteps int) c14Script {
 		switch x := r.Intn(100); {
 		case x < 35:
 			step.Progress = "none"
-		case x < 68:
+		case x < 74:
 			step.Progress = fmt.Sprintf("passes:%d", 1+r.Intn(4))
 		case x < 94:
 			step.Progress = "settle"
